@@ -163,7 +163,7 @@ func init() {
 	register("C07", func() Check {
 		return &cfCheck{id: "C07",
 			cfg:    CFConfig{Prop: "C07", JudgeClean: false, Faults: true, KindsPerPos: 2, Profile: stdProfile},
-			runs:   map[string]int{"quick": 2400, "thorough": 400000},
+			runs:   map[string]int{"quick": 40000, "thorough": 4000000},
 			budget: map[string]int{"quick": 60, "thorough": 1500},
 			rule:   "one case = (generated program, dynamic slot position k, error kind): the k-th invocation of the simulated callee raises; every position of the fault-free trace is enumerated; distinct_nontrivial counts distinct (program skeleton with slot ids erased, trace length) pairs whose model prediction was decisive",
 			assume: []string{
@@ -175,7 +175,7 @@ func init() {
 	register("C15", func() Check {
 		return &cfCheck{id: "C15",
 			cfg:    CFConfig{Prop: "C15", JudgeClean: true, Faults: true, KindsPerPos: 1, Profile: deferProfile},
-			runs:   map[string]int{"quick": 2400, "thorough": 400000},
+			runs:   map[string]int{"quick": 40000, "thorough": 4000000},
 			budget: map[string]int{"quick": 60, "thorough": 1500},
 			rule:   "one case = (generated body layout with plain/guarded defers, return, raise, nested calls; crash point k): fault-free run plus a raise injected at every dynamic slot position (body, guard, nested call, deferred expression); distinct_nontrivial counts distinct (program skeleton, trace length) pairs",
 			assume: []string{
